@@ -183,7 +183,7 @@ func unmarshalFieldWKT(msg protoreflect.Message, field protoreflect.FieldDescrip
 	}
 	switch field.Message().Name() {
 	case "DoubleValue", "FloatValue":
-		value := msg.NewField(field)
+		value := newFieldMessage(msg, field)
 		subField := value.Message().Descriptor().Fields().ByName("value")
 		subValue, err := unmarshalFieldValue(value.Message(), subField, data)
 		if err != nil {
@@ -197,8 +197,17 @@ func unmarshalFieldWKT(msg protoreflect.Message, field protoreflect.FieldDescrip
 	return unmarshalFieldMessage(msg, field, data)
 }
 
+// newFieldMessage returns a new message for the given message-typed field:
+// the field's value or, if the field is repeated, a new element of its list.
+func newFieldMessage(msg protoreflect.Message, field protoreflect.FieldDescriptor) protoreflect.Value {
+	if field.IsList() {
+		return msg.NewField(field).List().NewElement()
+	}
+	return msg.NewField(field)
+}
+
 func unmarshalFieldMessage(msg protoreflect.Message, field protoreflect.FieldDescriptor, data []byte) (protoreflect.Value, error) {
-	value := msg.NewField(field)
+	value := newFieldMessage(msg, field)
 	if err := protojson.Unmarshal(data, value.Message().Interface()); err != nil {
 		return protoreflect.Value{}, err
 	}
